@@ -194,10 +194,18 @@ def scenario(seed, corp, batch, idx):
     return scn
 
 
+def edge_texts():
+    """Every special first-line / last-line case on its own, with and without a final newline."""
+    out = []
+    for t in G.LAST_LINE_CASES + G.FIRST_LINE_CASES:
+        out += [t, t + '\n', 'intro\n\n' + t]
+    return [t for t in out if CW.in_domain(t)]
+
+
 def corpus_scenarios(corp, tier='quick'):
     """Systematic part: every corpus text (and the size-threshold texts) x one renderer (rotating), single-file, all channels."""
     out = []
-    for i, t in enumerate(list(corp) + G.big_texts(corp, tier)):
+    for i, t in enumerate(list(corp) + edge_texts() + G.big_texts(corp, tier)):
         rid = W.BUNDLED_IDS[i % len(W.BUNDLED_IDS)]
         out.append({'R': rid, 'texts': [t], 'names': ['f0.md'], 'fault': None, 'seed': i, 'batch': 'corpus', 'index': i,
                     'knobs': {'bufsize': [4, 16, 8192][i % 3], 'read_chunk': [1, 3, 8192][i % 3], 'write_chunk': [1, 5, 8192][(i // 3) % 3],
@@ -433,10 +441,12 @@ def real_runs(judge, seed, corp, n):
             envx, loc, outenc = REAL_ENVS[i % len(REAL_ENVS)]
             scn['knobs']['locale'], scn['knobs']['stdout_encoding'] = loc, outenc
             scn['knobs']['entry'] = '__main__'
-            d = os.path.join(tmp, str(i))
-            os.mkdir(d)
+            d = os.path.join(tmp, str(i), 'w')      # one level down so that a '../x.md' name stays inside the scratch directory
+            os.makedirs(d)
             for nme, t in zip(scn['names'], scn['texts']):
-                with open(os.path.join(d, nme), 'wb') as f:
+                path = os.path.normpath(os.path.join(d, nme))
+                os.makedirs(os.path.dirname(path), exist_ok=True)
+                with open(path, 'wb') as f:
                     f.write(t.encode('utf-8'))
             env = {k: v for k, v in os.environ.items() if k not in ('LC_ALL', 'LANG', 'LC_CTYPE', 'PYTHONIOENCODING', 'PYTHONUTF8')}
             env.update(envx)
